@@ -479,7 +479,7 @@ func lastLines(s string, n int) string {
 
 func runReplay(bin, path string) (int, string) {
 	cmd := exec.Command(bin, "-replay", path)
-	cmd.Env = append(os.Environ(), "GOMAXPROCS=1")
+	cmd.Env = append(os.Environ(), "GOMAXPROCS=1", "GORACE=halt_on_error=0 log_path="+filepath.Join(filepath.Dir(bin), "race", "replay"))
 	out, err := cmd.CombinedOutput()
 	if err == nil {
 		return 0, string(out)
